@@ -67,6 +67,14 @@ Theorem C02_minimum_rule_or_unreachable :
 Proof. exact minimum_rule_or_unreachable. Qed.
 Print Assumptions C02_minimum_rule_or_unreachable.
 
+(* number ** expression: class Atom has no __rpow__ (Python raises TypeError: rejected), or its rule is correct *)
+Theorem C02_rpow_rule_or_absent :
+  has_rpow = false \/
+  (forall (f : R -> R) (x f' c : R), is_derive f x f' -> 0 < c ->
+     derives (fun u => rpow c (f u)) x (atom_rpow RD (f x, f') c)).
+Proof. exact rpow_rule_or_absent. Qed.
+Print Assumptions C02_rpow_rule_or_absent.
+
 (* ---- 2. expression trees: value and derivative along any differentiable curve of evaluation points ------- *)
 
 Theorem C02_eval_correct : forall (gam : R -> token -> R) (sd : token -> R) (lg : Z -> bool) (s0 : R) (t : tree RD),
